@@ -46,12 +46,13 @@ FinishFail ==
 
 Init == /\ tid \in 1..Len(Traces) /\ l = 1 /\ why = ""
         /\ acc = [a \in 1..Traces[tid].NA |-> 0]
+\* Tr.chk selects the clauses: "balance" (C01: step clauses), "accounting" (C04: finish clauses)
 Step == /\ l <= Len(Tr.steps) /\ why = ""
-        /\ why' = StepFail(Tr.steps[l])
+        /\ why' = IF "balance" \in ToSet(Tr.chk) THEN StepFail(Tr.steps[l]) ELSE ""
         /\ acc' = [a \in 1..Tr.NA |-> acc[a] + Tr.steps[l].dcf[a]]
         /\ l' = l + 1 /\ UNCHANGED tid
 Finish == /\ l = Len(Tr.steps) + 1 /\ why = ""
-          /\ why' = FinishFail
+          /\ why' = IF "accounting" \in ToSet(Tr.chk) THEN FinishFail ELSE ""
           /\ l' = l + 1 /\ UNCHANGED <<tid, acc>>
 Spec == Init /\ [][Step \/ Finish]_vars
 Mark == TLCSet(tid, IF why # "" THEN <<l - 1, why>>
